@@ -37,6 +37,9 @@ var (
 	hookMu   sync.Mutex
 	hookChan string
 	hookCh   chan procEv
+	hookH    int      // history in progress
+	hookI    int      // upload in progress
+	lastF    *os.File // <part>.last: the most recent hook event, written INSIDE the hook (channel goroutine)
 )
 
 func installHook() {
@@ -45,10 +48,20 @@ func installHook() {
 			return
 		}
 		hookMu.Lock()
-		name, ch := hookChan, hookCh
+		name, ch, hh, hi := hookChan, hookCh, hookH, hookI
 		hookMu.Unlock()
 		if ch == nil || kv["ch"] != name {
 			return
+		}
+		if lastF != nil {
+			// one fixed-size write at offset 0: complete before this goroutine goes on (possibly: goes on dying)
+			rec, _ := json.Marshal(map[string]any{"H": hh, "I": hi, "T": kv["track"], "N": toInt(kv["seqNr"])})
+			buf := make([]byte, 160)
+			for i := range buf {
+				buf[i] = ' '
+			}
+			copy(buf, rec)
+			_, _ = lastF.WriteAt(buf, 0)
 		}
 		select {
 		case ch <- kv:
@@ -234,7 +247,6 @@ type childState struct {
 	lib  *segLib
 	tmp  string
 	part string
-	sum  childSummary
 	pl   *poller
 }
 
@@ -253,13 +265,15 @@ func childMain(lib *segLib, batchFile, part string, from int, tmp string) error 
 		return err
 	}
 	w := &evWriter{f: pf}
+	lastF, err = os.Create(part + ".last")
+	if err != nil {
+		return err
+	}
 	installHook()
 	c := &childState{w: w, lib: lib, tmp: tmp, part: part, pl: &poller{done: make(chan struct{})}}
 	go c.pl.run()
 	for hi := from; hi < len(batch); hi++ {
 		abort := c.runHistory(hi, &batch[hi])
-		sdata, _ := json.Marshal(c.sum)
-		_ = os.WriteFile(part+".sum", sdata, 0o644)
 		if abort {
 			_ = pf.Close()
 			os.Exit(exitAbort)
@@ -339,7 +353,6 @@ func (c *childState) runHistory(hi int, h *history) (abort bool) {
 	mpdPath := filepath.Join(storage, chName, "manifest_timeline_nr.mpd")
 	c.pl.path.Store(mpdPath)
 	c.emit(header(c.lib, h))
-	c.sum.Scenarios++
 
 	var order []upl
 	for _, t := range h.First {
@@ -351,18 +364,16 @@ func (c *childState) runHistory(hi int, h *history) (abort bool) {
 	lastOK := false
 	lastHook := noHook(h.Tracks)
 	lastRange := []int{}
-	started := false
 	crashFree := true
-	prevI, prevN, prevT := -1, 0, "" // the last accepted media upload whose complete process event was received
 	for i, u := range order {
-		// progress marker for the parent; Seen = process events of THIS upload received so far.  The deferred hook
-		// also fires while the channel goroutine is unwinding a panic, so the driver may already have moved on to the
-		// next upload when the process dies: a death with Seen = 0 belongs to the previous upload.
-		mark := func(seen int) {
-			cur, _ := json.Marshal(map[string]any{"H": hi, "I": i, "N": u.N, "T": u.T, "Seen": seen, "PI": prevI, "PN": prevN, "PT": prevT})
-			_ = os.WriteFile(c.part+".cur", cur, 0o644)
+		// progress marker for the parent (atomically: the process may die at any moment)
+		cur, _ := json.Marshal(map[string]any{"H": hi, "I": i, "N": u.N, "T": u.T})
+		if err := os.WriteFile(c.part+".cur.tmp", cur, 0o644); err == nil {
+			_ = os.Rename(c.part+".cur.tmp", c.part+".cur")
 		}
-		mark(0)
+		hookMu.Lock()
+		hookH, hookI = hi, i
+		hookMu.Unlock()
 		var data []byte
 		var name, kind, dig string
 		var dts, dur int64
@@ -389,7 +400,6 @@ func (c *childState) runHistory(hi int, h *history) (abort bool) {
 			status = rec.Code
 		case <-time.After(answerTimeout):
 		}
-		c.sum.Uploads++
 		processed := false
 		nproc := 0
 		hk := noHook(h.Tracks) // "have" only for the hook event of THIS upload
@@ -399,9 +409,6 @@ func (c *childState) runHistory(hi int, h *history) (abort bool) {
 			for {
 				select {
 				case ev := <-procCh:
-					if nproc == 0 && ev["track"] == u.T {
-						mark(1)
-					}
 					nproc++
 					complete, _ := ev["complete"].(bool)
 					if complete && ev["track"] == u.T && toInt(ev["seqNr"]) == u.N {
@@ -413,15 +420,10 @@ func (c *childState) runHistory(hi int, h *history) (abort bool) {
 					break wait
 				}
 			}
-		} else if status != http.StatusOK {
-			c.sum.Rejected++
 		}
 		c.pl.active.Store(false)
 		if hk["have"] == true {
 			lastHook = hk
-			if toInt(hk["maxBuf"]) > 0 {
-				started = true
-			}
 		}
 		// observation
 		files := map[string]any{}
@@ -439,7 +441,6 @@ func (c *childState) runHistory(hi int, h *history) (abort bool) {
 				ok, as := parseMPD(data)
 				mo = map[string]any{"state": "new", "ok": ok, "as": as}
 				lastStamp, havePub, lastOK = stamp, true, ok
-				c.sum.Publications++
 				if ok && len(as) > 0 {
 					nseg := 0
 					for _, s := range as[0].S {
@@ -451,44 +452,19 @@ func (c *childState) runHistory(hi int, h *history) (abort bool) {
 		}
 		c.emit(tr.E{"ev": "up", "i": i, "track": u.T, "kind": kind, "n": u.N, "status": status, "dts": dts, "dur": dur, "h": dig,
 			"processed": processed, "nproc": nproc, "files": files, "mpd": mo, "hook": hk})
-		if processed {
-			prevI, prevN, prevT = i, u.N, u.T
-		}
 		if status < 0 || (status == http.StatusOK && kind == "media" && !processed) {
 			crashFree = false
 			break
 		}
 	}
+	// The deferred process hook also fires while the channel goroutine unwinds a panic: give a dying process the
+	// time to die before the history is closed and the next one (with its own hook events) starts.
+	time.Sleep(3 * time.Millisecond)
 	reads, bad, distinct, sample := c.pl.take()
-	c.sum.PollReads += reads
-	c.sum.PollBad += bad
 	c.emit(tr.E{"ev": "poll", "reads": reads, "bad": bad, "distinct": distinct, "sample": sample})
 	lh := lastHook
 	c.emit(tr.E{"ev": "end", "hid": h.ID, "alive": crashFree, "range": lastRange, "published": havePub, "hookSeen": lh["have"] == true,
 		"latest": toInt(lh["latest"]), "started": lh["started"] == true, "nrTracks": toInt(lh["nrTracks"])})
-	if started {
-		c.sum.Started++
-	}
-	if !havePub {
-		c.sum.MpdNeverPublished++
-	}
-	if h.Pred != nil {
-		c.sum.FidelityCompared++
-		same := !h.Pred.Panic && len(h.Pred.Mpd) == len(lastRange)
-		if same && len(lastRange) == 2 {
-			same = h.Pred.Mpd[0] == lastRange[0] && h.Pred.Mpd[1] == lastRange[1]
-		}
-		if same && lastHook["have"] == true {
-			same = toInt(lastHook["latest"]) == h.Pred.Latest && lastHook["started"] == h.Pred.Started &&
-				(!h.Pred.Started || toInt(lastHook["nrTracks"]) == h.Pred.NrTracks)
-		}
-		if !same {
-			c.sum.FidelityMismatch++
-			if os.Getenv("C17_DEBUG") != "" {
-				fmt.Fprintf(os.Stderr, "FIDELITY %s pred=%+v real range=%v hook=%v\n", h.ID, *h.Pred, lastRange, lastHook)
-			}
-		}
-	}
 	hookMu.Lock()
 	hookChan, hookCh = "", nil
 	hookMu.Unlock()
